@@ -344,6 +344,26 @@ pub fn gen_doc(rng: &mut Rng, o: &GenOpts, cl: &mut Classes) -> Val {
 /// and documents of tens of KiB full of multi-byte characters (so that reads of
 /// 8 KiB / 16 KiB end inside characters).
 pub fn gen_heavy_doc(rng: &mut Rng) -> Val {
+    if rng.chance(1, 6) {
+        // KEYS whose byte length sits on a header or parser boundary: MessagePack str8/str16/str32, YAML's
+        // 1024-character limit for implicit keys (longer ones need the explicit '? ' form), 64 KiB
+        let mut m = vec![];
+        for n in [31usize, 32, 255, 256, 1023, 1024, 1025, 1030, 4096, 65535, 65536] {
+            if rng.chance(1, 2) {
+                let unit = *rng.pick(&["k", "ab", "é", "日"]);
+                let mut s = String::new();
+                while s.len() + unit.len() <= n {
+                    s.push_str(unit);
+                }
+                while s.len() < n {
+                    s.push('k');
+                }
+                m.push((Val::Str(s), Val::Int(n as i128)));
+            }
+        }
+        m.push((Val::Str("end".into()), Val::Seq(vec![Val::Int(1)])));
+        return Val::Map(m);
+    }
     if rng.chance(1, 4) {
         // strings whose byte length sits on the str16/str32 header boundary (and the str8 one)
         let mut m = vec![];
